@@ -41,6 +41,7 @@ def main(cases_fn, replay_fn=None, describe=None):
     ap.add_argument('--seed', type=int, default=0)
     ap.add_argument('--replay', default=None)
     ap.add_argument('--max-failures', type=int, default=6)
+    ap.add_argument('--record', type=int, default=0, help='record N real executions (arguments, result / exception) per function for the conformance check')
     a, rest = ap.parse_known_args()
     L = ConL()
     if a.replay is not None:
@@ -63,6 +64,40 @@ def main(cases_fn, replay_fn=None, describe=None):
         except Exception as ex:
             out = {'outcome': 'error', 'detail': traceback.format_exc()[-800:]}
         print(json.dumps({'replay': jsonable(out)}))
+        return
+    if a.record:
+        from pyvc.conform import enc
+        import copy
+        per, out, seen, skipc = {}, [], 0, {}
+        stride = int(os.environ.get('VERIF_RECORD_STRIDE', '7'))
+        want = set(x for x in os.environ.get('VERIF_RECORD_KEYS', '').split(',') if x)
+        for (contract, func, args, label) in cases_fn(L, a.tier, a.seed):
+            seen += 1
+            if seen > 20000 or (want and all(per.get(k, 0) >= a.record for k in want)):
+                break
+            key = contract.key
+            if (want and key not in want) or per.get(key, 0) >= a.record:
+                continue
+            skipc[key] = skipc.get(key, 0) + 1
+            if (skipc[key] - 1) % stride:
+                continue            # spread the samples over the case list
+            try:
+                A0 = {k: copy.deepcopy(v) for k, v in args.items()}
+                G, _ = contract.ghost(L, A0)
+                if not all(bool(p) for _, p in contract.requires(L, A0, G)):
+                    continue
+                rec = {'key': key, 'args': {k: enc(v) for k, v in A0.items()}}
+            except Exception:
+                continue
+            try:
+                res = func(**args)
+                rec['result'] = enc(res)
+            except Exception as ex:
+                rec['raised'] = type(ex).__name__
+            # spread the samples: keep every (seen-th) so that different shapes are recorded
+            per[key] = per.get(key, 0) + 1
+            out.append(rec)
+        print(json.dumps({'samples': out}))
         return
     t0 = time.time()
     stats = {}
@@ -93,9 +128,17 @@ def main(cases_fn, replay_fn=None, describe=None):
             yield
         finally:
             signal.setitimer(signal.ITIMER_REAL, 0)
+    progress = os.environ.get('VERIF_PROGRESS_FILE')
     for (contract, func, args, label) in cases_fn(L, a.tier, a.seed):
         n += 1
         per_key[contract.key] = per_key.get(contract.key, 0) + 1
+        if progress:
+            # the case about to run: if the real code kills the interpreter (segfault in a compiled kernel) the runner reports this input
+            try:
+                with open(progress, 'w') as pf:
+                    pf.write(json.dumps({'key': contract.key, 'input': jsonable(label), 'n': n}))
+            except OSError:
+                pass
         try:
             runtime_check(contract, func, args, L, stats, call_guard=guard)
         except (CaseTimeout, MemoryError) as ex:
